@@ -121,6 +121,8 @@ def run(ctx):
     tables.rule_T_PRED(ctx, T)
     tables.rule_T_DISJOINT(ctx, T)
     tables.rule_T_DISTINCT(ctx, T, which=("lex",))
+    # the lexical vocabulary must contain every keyword of its enum sibling (seed c02-x: the Han interval prefix written in another script)
+    tables.rule_T_AGREE(ctx, T)
     tables.rule_T_JUXTAPOSE(ctx, T, models=("lex",))
     tables.rule_T_SHADOW_lex(ctx, T)
     # ---- 3. optional truth / mandatory budget, parser defaults
